@@ -285,6 +285,7 @@ func runCollCase(c *Ctx, ops []string) {
 }
 
 func propC18(c *Ctx) {
+	propScaleCollections(c)
 	propScaleExpressions(c, "C18")
 	g := newExGen(c)
 	g.vars = []string{"a", "A", "b", "xyz", "XyZ", "_v1", "\"my var\"", "\"MY VAR\"", "é1", "É1", "iſ_x", "IS_X", "\"a\"", "Max", "null_1"}
